@@ -8,7 +8,7 @@
    half of Model/Json.v; the value of a number token (jnum_value) and the value tree (decode_doc) are in
    Model/JsonRead.v, with the model of the cell renderers, of ToJSON of a frame and of ReadJSON. *)
 From QF Require Import Base.Prelude Model.Utf8 Model.Json Proofs.Utf8Proofs Proofs.JsonProofs.
-From QF Require Import Model.Ryu Model.Frame Model.Filter Model.Ops Model.JsonRead Proofs.JsonDocProofs.
+From QF Require Import Model.Ryu Model.Frame Model.Filter Model.Ops Model.JsonRead Proofs.EnumProofs Proofs.JsonDocProofs.
 From QF Require Model.CsvWrite Proofs.RyuShortest.
 Local Open Scope N_scope.
 
@@ -230,12 +230,16 @@ Qed.
      differ only in ill-formed bytes collide into one key;
    * no NaN in float columns: NaN is written as null; in the first row this turns the column into a string
      column, in a later row fillFloats rejects the document;
-   * distinct names (the records are maps). *)
+   * distinct names (the records are maps);
+   * enum value tables without a repeated value (enum_tables_nodup, Proofs/EnumProofs.v): New rejects an Enums
+     entry that lists a value twice (C17_duplicate_declaration_rejected); every enum column built by the factory
+     has such a table (C17_table_nodup). *)
 Definition C14_readback_statement : Prop :=
   forall (parse_float : bytes -> option N) (int_to_float : Z -> N) (f : frame) (t : table),
     ferr f = false -> wf_frame f = true -> abs f = Ok t ->
     cols f <> [] -> ix f <> [] ->
     NoDup (col_names f) -> Forall name_ok (col_names f) ->
+    enum_tables_nodup f = true ->
     Forall (Forall (rb_ok parse_float int_to_float)) (trows t) ->
     exists out f',
       frame_to_json f = Ok out /\
@@ -266,12 +270,13 @@ Example C14_readback_example :
   exists t, ferr C14_example_frame2 = false /\ wf_frame C14_example_frame2 = true /\
     abs C14_example_frame2 = Ok t /\ cols C14_example_frame2 <> [] /\ ix C14_example_frame2 <> [] /\
     NoDup (col_names C14_example_frame2) /\ Forall name_ok (col_names C14_example_frame2) /\
+    enum_tables_nodup C14_example_frame2 = true /\
     Forall (Forall (rb_ok C14_example_pf C14_example_i2f)) (trows t).
 Proof.
   eexists. split; [reflexivity|]. split; [vm_compute; reflexivity|]. split; [vm_compute; reflexivity|].
   split; [discriminate|]. split; [discriminate|].
   split; [repeat constructor; cbn [In]; intuition discriminate|].
-  split; [repeat constructor|].
+  split; [repeat constructor|]. split; [vm_compute; reflexivity|].
   cbn [trows].
   repeat (constructor;
           try exact I; try reflexivity;
@@ -328,6 +333,7 @@ Definition C14_full_statement : Prop :=
     ferr f = false -> wf_frame f = true -> abs f = Ok t ->
     cols f <> [] -> ix f <> [] ->
     NoDup (col_names f) -> Forall name_ok (col_names f) ->
+    enum_tables_nodup f = true ->
     Forall (Forall (fun c =>
               match c with
               | CInt z => parse_float (CsvWrite.itoa z) = Some (int_to_float z)
